@@ -243,3 +243,238 @@ def register(R: Registry):
                    ("end-points-unchanged", sm_ends)],
           notes="branch of symbolic length on a tree of symbolic size, window symbolic; input tree, index array and branch object are "
                 "frozen (any write to them is a failed frame obligation); scipy.signal.convolve only through its output length")
+
+    # ------------------------------------------------ _BranchResampler.__call__
+    # the user-facing call  Resampler(...)(branch): reads the branch through its window, resamples, builds a NEW branch
+    def call_setup(kind, N):
+        def f(S):
+            from swcgeom.core import Branch
+            from swcgeom.transforms.branch import BranchIsometricResampler, BranchLinearResampler
+
+            t = sym_tree(S, "t", frozen=True)
+            idx = NArr((N,), [S.int(f"bidx{k}") for k in range(N)], "int")
+            idx.frozen = True
+            for q in idx.items:
+                S.assume(z3.And(q.z >= 0, q.z < nof(t)))
+            br = S.obj(Branch, attach=t, idx=idx, names=t.fields["names"], source="")
+            br.frozen = True
+            if kind == "isometric":
+                me = S.obj(BranchIsometricResampler, distance=S.real("distance"), adjust_last_gap=True)
+            else:
+                me = S.obj(BranchLinearResampler, n_nodes=S.int("n_nodes"))
+            return dict(self=me, x=br, kind=kind)
+
+        return f
+
+    def call_pre(E, v, o):
+        me = v["self"]
+        if v["kind"] == "isometric":
+            return to_z3(me.fields["distance"], "real") > 0
+        return to_z3(me.fields["n_nodes"], "int") >= 2
+
+    def _node(v, o, p):
+        """(x, y, z, r) of node p of the input branch"""
+        x0 = o["x"]
+        t, idx = x0.fields["attach"], x0.fields["idx"]
+        return [z3.Select(col(t, c).arr, to_z3(idx.items[p], "int")) for c in "xyzr"]
+
+    def call_fresh(E, v, o):
+        got = _out(v)
+        if got is None:
+            return False
+        r, a, nd = got
+        if r.uid in E.entry_uids or a.uid in E.entry_uids or set(nd) != set(COLS):
+            return False
+        return all(isinstance(c, SArr) and c.uid not in E.entry_uids for c in nd.values())
+
+    def call_count(E, v, o):
+        r, a, nd = _out(v)
+        n = nd["x"].nz()
+        me = o["self"]
+        same = z3.And(r.fields["idx"].nz() == n, *[c.nz() == n for c in nd.values()])
+        if v["kind"] == "linear":
+            return z3.And(same, n == to_z3(me.fields["n_nodes"], "int"))
+        N = o["x"].fields["idx"].shape[0]
+        pts = [_node(v, o, p) for p in range(N)]
+        L = z3.RealVal(0)
+        for p in range(N - 1):
+            sq = sum(((pts[p + 1][a_] - pts[p][a_]) * (pts[p + 1][a_] - pts[p][a_]) for a_ in range(3)), z3.RealVal(0))
+            L = L + to_z3(E.sqrt(Sym(sq, "real"), nonneg_known=True), "real")
+        q = L / to_z3(me.fields["distance"], "real")
+        return z3.And(same, n >= 1, z3.ToReal(n) - 2 < q, q <= z3.ToReal(n) - 1)
+
+    def call_ends(E, v, o):
+        r, a, nd = _out(v)
+        n = nd["x"].nz()
+        N = o["x"].fields["idx"].shape[0]
+        first, last = _node(v, o, 0), _node(v, o, N - 1)
+        out = [nd[c].get(0).z == first[j] for j, c in enumerate("xyz")]
+        out += [nd[c].get(n - 1).z == last[j] for j, c in enumerate("xyzr")]
+        return z3.And(n >= 1, *out)
+
+    def call_chain(E, v, o):
+        r, a, nd = _out(v)
+        n = nd["x"].nz()
+        j = z3.Int(fresh_name("j"))
+        return z3.ForAll([j], z3.Implies(z3.And(0 <= j, j < n), z3.And(nd["id"].get(j).z == j, nd["pid"].get(j).z == j - 1, r.fields["idx"].get(j).z == j)))
+
+    R.add(f"{BR}:_BranchResampler.__call__", prop="C16",
+          variants={f"{kind}-branch-of-{N}-nodes": call_setup(kind, N) for kind in ("isometric", "linear") for N in SIZES},
+          requires=[("spacing-positive-or-at-least-two-target-points", call_pre)],
+          ensures=[("result-is-a-new-branch-in-fresh-storage", call_fresh),
+                   ("node-count", call_count),
+                   ("end-points-kept", call_ends),
+                   ("nodes-chained-in-order", call_chain)],
+          notes="branch of exactly 2, 3, 4 nodes (variants) attached to a tree of symbolic size through symbolic node indices; "
+                "input tree / index array / branch frozen; resample() is inlined")
+
+    # ------------------------------------------------ BranchTreeAssembler.__call__
+    register_assembler(R)
+
+
+BT = "swcgeom/transforms/branch_tree.py"
+ATTRS = ("type", "x", "y", "z", "r")
+EPS = "1/1000000"
+
+
+def _frozen(v):
+    v.frozen = True
+    return v
+
+
+def _swc_cols(S, name, n, ids=None, pids=None):
+    cols = {}
+    for c, k in dict(id="int", type="int", x="real", y="real", z="real", r="real", pid="int").items():
+        if c == "id" and ids is not None:
+            items = list(ids)
+        elif c == "pid" and pids is not None:
+            items = list(pids)
+        else:
+            items = [S.int(f"{name}_{c}{i}") if k == "int" else S.real(f"{name}_{c}{i}") for i in range(n)]
+        cols[c] = _frozen(NArr((n,), items, k))
+    return cols
+
+
+def branch_tree_input(S, pids, sizes):
+    """A BranchTree with the concrete topology `pids` (node j+1 hangs under pids[j+1]; one child per junction here) and,
+    for every edge, a resampled branch of sizes[edge] points with fully symbolic attributes."""
+    from swcgeom.core import Branch, BranchTree, DictSWC
+    from swcgeom.core.swc_utils import get_names, get_types
+
+    n = len(pids)
+    nd = _frozen(PDict(_swc_cols(S, "J", n, ids=range(n), pids=pids)))
+    x = S.obj(BranchTree, ndata=nd, names=get_names(), types=get_types(), source="", comments=PList([]))
+    x.frozen = True
+    branches = {}
+    blist = []
+    for child in range(1, n):
+        q = sizes[child - 1]
+        bnd = _frozen(PDict(_swc_cols(S, f"B{child}", q)))
+        att = S.obj(DictSWC, ndata=bnd, names=get_names(), types=get_types(), source="", comments=PList([]))
+        att.frozen = True
+        br = S.obj(Branch, attach=att, idx=_frozen(NArr((q,), list(range(q)), "int")), names=get_names(), source="")
+        br.frozen = True
+        branches.setdefault(pids[child], []).append(br)
+        blist.append((pids[child], child, br))
+    bd = PDict({k: _frozen(PList(v)) for k, v in branches.items()})
+    bd.frozen = True
+    x.fields["branches"] = bd
+    return x, blist
+
+
+def register_assembler(R):
+    def setup(pids, sizes):
+        def f(S):
+            from swcgeom.transforms.branch_tree import BranchTreeAssembler
+
+            x, blist = branch_tree_input(S, pids, sizes)
+            return dict(self=S.obj(BranchTreeAssembler), x=x, blist=blist)
+
+        return f
+
+    def val(colv, i):
+        return to_z3(colv.items[i], colv.kind)
+
+    def ends_coincide(E, v, o):
+        """both end points of every resampled branch lie on their junction nodes (within the assembler's EPS)"""
+        x = v["x"]
+        J = x.fields["ndata"].items
+        out = []
+        for (p, c, br) in v["blist"]:
+            B = br.fields["attach"].fields["ndata"].items
+            q = B["x"].shape[0]
+            for (bi, ji) in ((0, p), (q - 1, c)):
+                sq = sum(((val(B[a], bi) - val(J[a], ji)) * (val(B[a], bi) - val(J[a], ji)) for a in "xyz"), z3.RealVal(0))
+                out.append(to_z3(E.sqrt(Sym(sq, "real"), nonneg_known=True), "real") < z3.RealVal(EPS))
+        return z3.And(*out)
+
+    def expected_rows(v):
+        """the rows the property demands, in emission order: (attribute source, new id, new pid)"""
+        x = v["x"]
+        J = x.fields["ndata"].items
+        rows = [((J, 0), 0, -1)]
+        new_id = {0: 0}
+        # junctions are visited in the order of a stack: with one child per junction this is the chain order
+        for (p, c, br) in v["blist"]:
+            B = br.fields["attach"].fields["ndata"].items
+            q = B["x"].shape[0]
+            prev = new_id[p]
+            for i in range(1, q - 1):  # the q-2 interior samples, none dropped
+                rows.append(((B, i), len(rows), prev))
+                prev = len(rows) - 1
+            rows.append(((J, c), len(rows), prev))
+            new_id[c] = len(rows) - 1
+        return rows
+
+    def _res(v):
+        r = v["result"]
+        if not isinstance(r, Obj):
+            return None
+        nd = r.fields.get("ndata")
+        if not isinstance(nd, PDict) or nd.items is None or set(nd.items) != {"id", "type", "x", "y", "z", "r", "pid"}:
+            return None
+        if not all(isinstance(c, NArr) and c.ndim == 1 for c in nd.items.values()):
+            return None
+        return nd.items
+
+    def post_count(E, v, o):
+        cols = _res(v)
+        if cols is None:
+            return False
+        n = len(expected_rows(o))
+        return all(c.shape == (n,) for c in cols.values())
+
+    def post_rows(E, v, o):
+        cols = _res(v)
+        rows = expected_rows(o)
+        if cols is None or any(c.shape != (len(rows),) for c in cols.values()):
+            return False
+        out = []
+        for k, ((src, i), nid, npid) in enumerate(rows):
+            out.append(val(cols["id"], k) == nid)
+            out.append(val(cols["pid"], k) == npid)
+            for a in ATTRS:
+                out.append(to_z3(cols[a].items[k], src[a].kind) == val(src[a], i))
+        return z3.And(*out)
+
+    def post_is_tree(E, v, o):
+        from swcgeom.core import Tree
+
+        r = v["result"]
+        return isinstance(r, Obj) and r.cls is Tree and r.uid not in E.entry_uids
+
+    VARIANTS = {}
+    for q in (2, 3, 4):
+        VARIANTS[f"stem-with-{q}-samples"] = setup([-1, 0], [q])
+    for q1, q2 in ((2, 3), (3, 2), (3, 3), (4, 3)):
+        VARIANTS[f"two-branches-in-sequence-{q1}-{q2}-samples"] = setup([-1, 0, 1], [q1, q2])
+
+    R.add(f"{BT}:BranchTreeAssembler.__call__", prop="C16",
+          variants=VARIANTS,
+          requires=[("branch-end-points-lie-on-their-junctions", ends_coincide)],
+          ensures=[("result-is-a-new-tree", post_is_tree),
+                   ("node-count-is-junctions-plus-all-interior-samples", post_count),
+                   ("rows-are-interior-samples-then-end-junction-chained-by-pid", post_rows)],
+          notes="fixed shapes per variant: a root with one branch of q in {2,3,4} resampled points, and two branches in sequence "
+                "(junction 0 -> 1 -> 2) of (q1,q2) points; all coordinates, radii and types symbolic; every input object frozen. "
+                "pair() is inlined (1 x 1 distance matrix per junction); trees with several branches per junction stay bounded-only")
